@@ -429,14 +429,16 @@ GetPacketsR(t) ==
           IF rc = OK
           THEN [Cur EXCEPT !.itr[c] = [k |-> "itr", lslot |-> t, cid |-> h.cid, num |-> h.num, scalar |-> (h.cat = ""),
                                        names |-> Norms(l), all |-> Rows(l), pending |-> SortedSeq(Rows(l)),
-                                       deliv |-> <<>>, cur |-> 0, fin |-> FALSE, foreign |-> FALSE],
+                                       deliv |-> <<>>, cur |-> 0, fin |-> FALSE, done |-> FALSE, foreign |-> FALSE],
                            !.snap[c] = <<ContsOf(c), {x \in loops : x.cif = c}, {x \in vals : x.cif = c}>>]
           ELSE Cur)
 
 ItrNextR(c) ==
     IF ~(c \in cifs /\ Busy(c)) THEN Off ELSE
     LET it == itr[c]
-    IN IF it.fin THEN On([op |-> "itr_next", itr |-> c, rc |-> FINISHED, cif |-> c], Cur)
+    \* the first CIF_FINISHED is a step of its own (`done`), so that what follows it - update / remove of the packet
+    \* delivered last, which still exists - is explored like any other sequence
+    IN IF it.fin THEN On([op |-> "itr_next", itr |-> c, rc |-> FINISHED, cif |-> c], [Cur EXCEPT !.itr[c].done = TRUE])
        ELSE LET r == Head(it.pending)
             IN On([op |-> "itr_next", itr |-> c, rc |-> OK, cif |-> c, row |-> r,
                    pkt |-> [n \in it.names |-> ValAt(c, it.cid, n, r)]],
